@@ -126,7 +126,7 @@ func c04verdict(c *Ctx, r *Report, rule string) {
 					if isErrorExit(ret) || isNilConst(resOf(ret, 0)) {
 						continue
 					}
-					if !okEdgeDominates(k.Value(), ret.Block()) {
+					if !h1NilEstablished(k.Value(), ret.Block()) {
 						all, why = false, "the return at "+c.pos(ret.Pos())+" hands back data without the nil-error edge of Close dominating it"
 					}
 				}
@@ -161,7 +161,7 @@ func c04verdict(c *Ctx, r *Report, rule string) {
 						if isErrorExit(ret) || isNilConst(resOf(ret, 0)) {
 							continue
 						}
-						if !okEdgeDominates(rv, ret.Block()) {
+						if !h1NilEstablished(rv, ret.Block()) {
 							readChecked = false
 							why = "the return at " + c.pos(ret.Pos()) + " hands back data although the error of the read at " + c.pos(rd.Pos()) + " was not tested"
 						}
@@ -241,7 +241,11 @@ func c04frame(c *Ctx, r *Report, rule string) {
 	}
 	isAccumulator := func(v ssa.Value) bool {
 		ph, ok := v.(*ssa.Phi)
-		if !ok || !isIntType(ph.Type()) {
+		if !ok {
+			// the same running sum kept in a memory cell, possibly updated through a method (ip_h1.go)
+			return h1CellAccumulator(c, v, isReadByte)
+		}
+		if !isIntType(ph.Type()) {
 			return false
 		}
 		for _, e := range ph.Edges {
@@ -311,12 +315,11 @@ func c04frame(c *Ctx, r *Report, rule string) {
 			o.Bad("the failing edge of the %s check at %s does not lead to an error exit only", src.name, c.pos(hit.V.Pos()))
 			continue
 		}
-		// the pass edge must be the equality side for comparisons
-		if b, ok := hit.V.(*ssa.BinOp); ok && (b.Op == token.EQL || b.Op == token.NEQ) {
-			if (b.Op == token.EQL) != hit.Truth {
-				o.Bad("the payload is accepted on the MISMATCH edge of the %s check at %s", src.name, c.pos(hit.V.Pos()))
-				continue
-			}
+		// the pass edge must be the equality side for comparisons (also when the comparison is made by
+		// a predicate function: ip_h1.go)
+		if eq, known := h1EqPolarity(c, hit.V, hit.Truth, 0); known && !eq {
+			o.Bad("the payload is accepted on the MISMATCH edge of the %s check at %s", src.name, c.pos(hit.V.Pos()))
+			continue
 		}
 		o.OK("accepted only on the pass edge of the check at %s; its failing edge reaches error exits only", c.pos(hit.V.Pos()))
 	}
